@@ -31,6 +31,8 @@ pub enum Case {
     HashOrder { container: String },
     /// twin run of one scenario (sampled tripwire)
     Twin { what: String, idx: usize },
+    /// one simulation / construction run inside rayon pools of 1..16 threads: output must not depend on the pool
+    PoolSize { what: String },
 }
 
 /// element kinds: 0 short ok conv, 1 long ok BEL, 2 fails at step 1 (conv), 3 fails at step 4 (BEL),
@@ -474,6 +476,158 @@ fn twin(what: &str, idx: usize) -> Vec<(String, String)> {
     }
 }
 
+// ------------------------------------------------------------------------------------------------ part 4
+/// seven conventional units whose fuel powers are pairwise different, non-round numbers (different engine ratings,
+/// maps and auxiliary loads), so that f64 sums over the units depend on the order of summation
+fn order_sensitive_consist() -> altrios_core::consist::Consist {
+    use crate::domain::pt::*;
+    let cfgs = [
+        LocoCfg::Conv { fc: FC0, gen: GEN0, edrv: EDRV0, aux: AUX0 },
+        LocoCfg::Conv { fc: FcCfg { rating: 1.0e6, lag: 5.0, ..FC0 }, gen: GEN0, edrv: EDRV0, aux: AuxCfg { offset: 11_237.77, coeff: 0.00071 } },
+        LocoCfg::Conv { fc: FcCfg { map: 1, ..FC0 }, gen: GEN0, edrv: EDRV0, aux: AuxCfg { offset: 3_001.3, coeff: 0.00013 } },
+        LocoCfg::Conv { fc: FcCfg { map: 2, rating: 2.2e6, ..FC0 }, gen: GEN0, edrv: EDRV0, aux: AUX0 },
+        LocoCfg::Conv { fc: FcCfg { rating: 4.1e6, lag: 40.0, ..FC0 }, gen: GenCfg { eta: 1, ..GEN0 }, edrv: EDRV0, aux: AuxCfg { offset: 19_999.9, coeff: 0.00093 } },
+        LocoCfg::Conv { fc: FC0, gen: GEN0, edrv: EdrvCfg { eta: 1, ..EDRV0 }, aux: AuxCfg { offset: 777.7, coeff: 0.00029 } },
+        LocoCfg::Conv { fc: FcCfg { rating: 1.7e6, lag: 12.0, ..FC0 }, gen: GEN0, edrv: EDRV0, aux: AuxCfg { offset: 6_543.21, coeff: 0.00047 } },
+    ];
+    let locos: Vec<Locomotive> = cfgs.iter().map(build_loco).collect();
+    altrios_core::consist::Consist::new(locos, Some(1), pdct(false))
+}
+
+fn pool_subject(what: &str) -> Result<String, String> {
+    let topos = topologies(false);
+    match what {
+        "consist-7-units" => {
+            let n = 12usize;
+            let time: Vec<f64> = (0..=n).map(|x| x as f64).collect();
+            let pwr: Vec<f64> = (0..=n).map(|i| 3.1e5 + 1.37e5 * i as f64).collect();
+            let mut sim = altrios_core::consist::consist_sim::ConsistSimulation::new(order_sensitive_consist(), PowerTrace::new(time, pwr, vec![Some(true); n + 1]), Some(1));
+            sim.walk().map_err(|e| format!("{e:#}"))?;
+            serde_json::to_string(&sim).map_err(|e| e.to_string())
+        }
+        "set-speed-train" => {
+            let net = build_topology(&line_topology(&[1200.0, 900.0], 15.0), true, SetStyle::Map);
+            let spec = TrainSpec { n_loaded: 7, n_empty: 5, davis: true, mass_override: None, length_override: None, consist: 3 };
+            let b = builder(&spec, None, Some(InitTrainState::new(Some(0.0 * uc::S), None, Some(3.0 * uc::MPS))), Some(1));
+            let n = 20usize;
+            let time: Vec<f64> = (0..=n).map(|x| x as f64).collect();
+            let speed: Vec<f64> = (0..=n).map(|i| 3.0 + 0.13 * i as f64).collect();
+            let mut sim = b.make_set_speed_train_sim(&net, &[lidx(1), lidx(2)], SpeedTrace::new(time, speed, None), Some(1)).map_err(|e| format!("{e:#}"))?;
+            sim.walk().map_err(|e| format!("{e:#}"))?;
+            serde_json::to_string(&sim).map_err(|e| e.to_string())
+        }
+        "est-times" => {
+            let t = topos.iter().find(|t| t.name == "scissors").ok_or("topology")?;
+            let s = make_sim(t, &TrainDesc { od: 0, dep: 60, long: true }, 1)?;
+            let (n, _) = make_est_times(s, &t.net.0).map_err(|e| format!("{e:#}"))?;
+            serde_json::to_string(&n).map_err(|e| e.to_string())
+        }
+        _ => {
+            let t = topos.iter().find(|t| t.name == "double-track").ok_or("topology")?;
+            let ds = [TrainDesc { od: 0, dep: 0, long: true }, TrainDesc { od: 0, dep: 60, long: false }, TrainDesc { od: 1, dep: 0, long: false }];
+            let mut nets = vec![];
+            let mut sims = vec![];
+            for (k, d) in ds.iter().enumerate() {
+                let s = make_sim(t, d, k + 1)?;
+                nets.push(make_est_times(s.clone(), &t.net.0).map_err(|e| format!("{e:#}"))?.0);
+                sims.push(s);
+            }
+            let p = run_dispatch(&t.net.0, &sims, nets, false, false).map_err(|e| format!("{e:#}"))?;
+            serde_json::to_string(&p).map_err(|e| e.to_string())
+        }
+    }
+}
+
+/// self-check of the order-sensitive consist: the per-unit fuel powers of its last step must sum to different f64
+/// values in at least two of the orders tried, otherwise a parallel reduction could not be told from the serial one
+fn consist_is_order_sensitive() -> bool {
+    let n = 12usize;
+    let time: Vec<f64> = (0..=n).map(|x| x as f64).collect();
+    let pwr: Vec<f64> = (0..=n).map(|i| 3.1e5 + 1.37e5 * i as f64).collect();
+    let mut sim = altrios_core::consist::consist_sim::ConsistSimulation::new(order_sensitive_consist(), PowerTrace::new(time, pwr, vec![Some(true); n + 1]), Some(1));
+    if sim.walk().is_err() {
+        return false;
+    }
+    let vals: Vec<f64> = sim.loco_con.loco_vec.iter().map(|l| l.fuel_converter().map(|f| f.state.pwr_fuel.value).unwrap_or(0.0)).collect();
+    let serial: f64 = vals.iter().sum();
+    let k = vals.len();
+    // every split point of a two-way tree reduction, and the reversed order
+    let mut sums: BTreeSet<u64> = BTreeSet::new();
+    sums.insert(serial.to_bits());
+    for cut in 1..k {
+        let a: f64 = vals[..cut].iter().sum();
+        let b: f64 = vals[cut..].iter().sum();
+        sums.insert((a + b).to_bits());
+        for cut2 in (cut + 1)..k {
+            let b1: f64 = vals[cut..cut2].iter().sum();
+            let b2: f64 = vals[cut2..].iter().sum();
+            sums.insert((a + (b1 + b2)).to_bits());
+            sums.insert(((a + b1) + b2).to_bits());
+        }
+    }
+    sums.len() > 1
+}
+
+pub fn pool_size(what: &str, reps: usize) -> (Vec<(String, String)>, u64) {
+    let mut f = vec![];
+    let mut n = 0u64;
+    if what == "consist-7-units" && !consist_is_order_sensitive() {
+        f.push(("order-insensitive-data@harness".into(), "the per-unit fuel powers of the seven-unit consist sum to the same f64 in every order tried".into()));
+    }
+    let one = rayon::ThreadPoolBuilder::new().num_threads(1).build();
+    let reference = match one {
+        Ok(p) => p.install(|| guarded(|| pool_subject(what))),
+        Err(e) => Err(e.to_string()),
+    };
+    let reference = match reference {
+        Ok(Ok(r)) => r,
+        Ok(Err(e)) => {
+            f.push(("subject-failed@harness".into(), format!("{what}: {e}")));
+            return (f, n);
+        }
+        Err(p) => {
+            f.push((format!("panic@{what}:pool-of-1"), p));
+            return (f, n);
+        }
+    };
+    // outside any explicit pool (the process-wide default pool) as well
+    let mut runs: Vec<(String, Result<Result<String, String>, String>)> = vec![("default pool".into(), guarded(|| pool_subject(what)))];
+    for threads in 1..=16usize {
+        let pool = match rayon::ThreadPoolBuilder::new().num_threads(threads).build() {
+            Ok(p) => p,
+            Err(e) => {
+                f.push(("rayon-pool@harness".into(), e.to_string()));
+                continue;
+            }
+        };
+        for _ in 0..reps {
+            runs.push((format!("{threads} threads"), pool.install(|| guarded(|| pool_subject(what)))));
+        }
+    }
+    for (label, r) in runs {
+        n += 1;
+        match r {
+            Ok(Ok(out)) => {
+                if out != reference {
+                    let pos = out.bytes().zip(reference.bytes()).position(|(a, b)| a != b).unwrap_or(0);
+                    let lo = pos.saturating_sub(60);
+                    f.push((format!("output-depends-on-worker-count@{what}"), format!("{label}: output differs from the run in a pool of 1 thread at byte {pos}: ...{} vs ...{}", &out[lo..(pos + 30).min(out.len())], &reference[lo..(pos + 30).min(reference.len())])));
+                    break;
+                }
+            }
+            Ok(Err(e)) => {
+                f.push((format!("outcome-depends-on-worker-count@{what}"), format!("{label}: error {e} where the pool of 1 thread succeeds")));
+                break;
+            }
+            Err(p) => {
+                f.push((format!("panic@{what}:{label}"), p));
+                break;
+            }
+        }
+    }
+    (f, n)
+}
+
 pub struct C18;
 
 fn kinds_alphabet(tier: Tier) -> Vec<u8> {
@@ -559,6 +713,10 @@ pub fn run_case(c: &Case, tier: Tier) -> (Vec<(String, String)>, u64, u64, u64, 
             let f = twin(what, *idx);
             (f, 2, 2, 0, format!("twin:{what}"))
         }
+        Case::PoolSize { what } => {
+            let (f, n) = pool_size(what, if tier.is_thorough() { 12 } else { 3 });
+            (f, n, n, n, format!("pool-size:{what}"))
+        }
     }
 }
 
@@ -589,6 +747,9 @@ pub fn cases(tier: Tier) -> Vec<Case> {
     for c in ["Link.speed_sets", "TrainConfig.n_cars_by_type", "LocationMap"] {
         v.push(Case::HashOrder { container: c.into() });
     }
+    for what in ["consist-7-units", "set-speed-train", "est-times", "dispatch"] {
+        v.push(Case::PoolSize { what: what.into() });
+    }
     let n_twin = if tier.is_thorough() { 24 } else { 6 };
     for what in ["est-times", "dispatch", "speed-limited"] {
         for i in 0..n_twin {
@@ -603,7 +764,7 @@ impl Prop for C18 {
         "C18"
     }
     fn rule(&self, tier: Tier) -> String {
-        format!("Part 1 (decides): the only concurrent seam, LocomotiveSimulationVec::walk(true) = rayon par_iter_mut().try_for_each(walk), is explored through rayon's contract (each element visited at most once; after an error no new element starts; started ones finish): one scheduler thread per element sharing one flag, element bodies = the REAL LocomotiveSimulation::walk. shuttle check_dfs (unbounded DFS, every interleaving) for EVERY batch (quick tier: every multiset) of N <= 3 elements over {} element kinds (ok/failing at step 1/failing later x conv/BEL); for N = 4 (every batch over 4 kinds{}) and three N = 5 batches the same contract is enumerated explicitly over its 2N events ((2N)!/2^N interleavings); the two engines must produce the same outcome set for every N <= 3 batch. states = schedules. Binding: the real walk(true) runs inside rayon pools of 1..16 threads ({} repetitions each) and every observed outcome must be a member of the explored outcome set; walk(false) must equal the element-wise serial reference. Part 2 (decides): for Link.speed_sets and LocationMap with 3 keys and TrainConfig.n_cars_by_type with 4 keys (car masses chosen so that f64 summation is order-sensitive), map instances are created until all 3! / 4! iteration orders are realised and the consuming pipeline must give identical outputs for each. Part 3 (sampled tripwire, not a verdict): {} scenarios of est-time construction, dispatch and speed-limited simulation run twice in fresh threads and compared byte for byte. distinct_nontrivial = distinct (part, batch size, number of outcomes / orders) signatures.", kinds_alphabet(tier).len(), if tier.is_thorough() { "" } else { ", every 8th in the quick tier" }, if tier.is_thorough() { 20 } else { 6 }, if tier.is_thorough() { 72 } else { 18 })
+        format!("Part 1 (decides): the only concurrent seam, LocomotiveSimulationVec::walk(true) = rayon par_iter_mut().try_for_each(walk), is explored through rayon's contract (each element visited at most once; after an error no new element starts; started ones finish): one scheduler thread per element sharing one flag, element bodies = the REAL LocomotiveSimulation::walk. shuttle check_dfs (unbounded DFS, every interleaving) for EVERY batch (quick tier: every multiset) of N <= 3 elements over {} element kinds (ok/failing at step 1/failing later x conv/BEL); for N = 4 (every batch over 4 kinds{}) and three N = 5 batches the same contract is enumerated explicitly over its 2N events ((2N)!/2^N interleavings); the two engines must produce the same outcome set for every N <= 3 batch. states = schedules. Binding: the real walk(true) runs inside rayon pools of 1..16 threads ({} repetitions each) and every observed outcome must be a member of the explored outcome set; walk(false) must equal the element-wise serial reference. Part 2 (decides): for Link.speed_sets and LocationMap with 3 keys and TrainConfig.n_cars_by_type with 4 keys (car masses chosen so that f64 summation is order-sensitive), map instances are created until all 3! / 4! iteration orders are realised and the consuming pipeline must give identical outputs for each. Part 4 (decides for the pool sizes stated; work-stealing order inside one pool size is repeated, not controlled): a ConsistSimulation over seven conventional units whose fuel powers sum order-sensitively (self-checked), a set-speed train run, an estimated-time construction and a three-train dispatch run inside rayon pools of 1..16 threads ({} repetitions each) and in the default pool; every serialized output must equal the one from a pool of 1 thread byte for byte -- today none of them contains parallel code, the part exists so that parallelism introduced into them is measured against the serial result. Part 3 (sampled tripwire, not a verdict): {} scenarios of est-time construction, dispatch and speed-limited simulation run twice in fresh threads and compared byte for byte. distinct_nontrivial = distinct (part, batch size, number of outcomes / orders) signatures.", kinds_alphabet(tier).len(), if tier.is_thorough() { "" } else { ", every 8th in the quick tier" }, if tier.is_thorough() { 20 } else { 6 }, if tier.is_thorough() { 12 } else { 3 }, if tier.is_thorough() { 72 } else { 18 })
     }
     fn assumptions(&self) -> Vec<String> {
         vec![
